@@ -98,7 +98,7 @@ func interestingInts() []float64 {
 
 func init() {
 	register("C15", func(c *engine.Ctx) {
-		c.Rule = "function level: codegen.PrimitiveTypeFromJSONSchemaType(integer, minIntSize) on bounds on, next to and between all eight type limits in every presence/kind combination, compared with the model and judged directly (chosen type holds every admitted integer, is the narrowest of its signedness, a bound is cleared only if the type implies it); emitted code: flag-on and flag-off programs on the same boundary documents must give the same verdict. Distinct = distinct (bounds skeleton, chosen type, value class)."
+		c.Rule = "function level: codegen.PrimitiveTypeFromJSONSchemaType(integer, minIntSize) on bounds on, next to and between all eight type limits in every presence/kind combination, compared with the model and judged directly (chosen type holds every admitted integer, is the narrowest of its signedness, a bound is cleared only if the type implies it); emitted code: flag-on and flag-off programs on the same boundary documents must give the same verdict, at required / optional / nullable positions and with the integer written as a property next to allOf / anyOf (root and definition). Distinct = distinct (bounds skeleton, chosen type, value class)."
 		c.Proofs([]string{"GJS.Props.C15"}, []string{
 			"GJS.Props.C15.getMinIntType_int", "GJS.Props.C15.rmLo_implied", "GJS.Props.C15.rmHi_implied", "GJS.Props.C15.kind_fits",
 			"GJS.Props.C15.kind_minimal_unsigned", "GJS.Props.C15.kind_minimal_signed", "GJS.Props.C15.same_accepts_Z",
@@ -325,6 +325,29 @@ func init() {
 			on.Cfg.MinSizedInts = true
 			off := baseCase("c15-flag-off", schema, docs, string(pos))
 			pcs = append(pcs, on, off)
+			if (i/stride)%3 == 0 {
+				// the same integer as a property written NEXT TO allOf / anyOf, at the root and in a definition: the
+				// schema node is then reachable twice (as a sibling and through the merge)
+				for _, kw := range []string{"allOf", "anyOf"} {
+					for _, inDef := range []bool{false, true} {
+						obj := M{"type": "object", "properties": M{"v": n.schemaKeys("integer")}, kw: []any{M{"type": "object", "properties": M{"name": M{"type": "string"}}}}}
+						var sch M = obj
+						wrap := func(d any) any { return d }
+						if inDef {
+							sch = M{"type": "object", "properties": M{"d": M{"$ref": "#/$defs/D"}}, "$defs": M{"D": obj}}
+							wrap = func(d any) any { return M{"d": d} }
+						}
+						var docs2 []any
+						for _, d := range docs {
+							docs2 = append(docs2, wrap(d))
+						}
+						on2 := baseCase("c15-flag-on", sch, docs2, "sibling-of-"+kw+fmt.Sprint(inDef))
+						on2.Cfg.MinSizedInts = true
+						off2 := baseCase("c15-flag-off", sch, docs2, "sibling-of-"+kw+fmt.Sprint(inDef))
+						pcs = append(pcs, on2, off2)
+					}
+				}
+			}
 		}
 		res := runCases(c, pcs)
 		for i := 0; i+1 < len(res); i += 2 {
